@@ -234,13 +234,20 @@ fn finder_machine_al(a: &[&str], rev: bool, alias: Option<usize>) -> Option<Stri
             total_allocs += al;
             cur = c2;
         } else if *op == "o" {
-            let (c2, al) = alloc_probe::measure(|| match cur {
-                H::F(f) => H::F(f.into_owned()),
-                H::R(f) => H::R(f.into_owned()),
-            });
-            total_allocs += al;
-            cur = c2;
-            is_owned = true;
+            #[cfg(memchr_verif_noalloc)]
+            {
+                return None; // `into_owned` only exists with the `alloc` feature
+            }
+            #[cfg(not(memchr_verif_noalloc))]
+            {
+                let (c2, al) = alloc_probe::measure(|| match cur {
+                    H::F(f) => H::F(f.into_owned()),
+                    H::R(f) => H::R(f.into_owned()),
+                });
+                total_allocs += al;
+                cur = c2;
+                is_owned = true;
+            }
         } else if *op == "r" {
             match cur {
                 H::F(f) => {
